@@ -1,4 +1,4 @@
-import ScriggoV.Model.ConstEval
+import ScriggoV.Model.ConstEvalQ
 /-! line-protocol handler of C02 (see `Model/ConstEval.lean` for the prefix notation) -/
 namespace ScriggoV.Drv.C02
 open ScriggoV.ConstEval ScriggoV.Spec.GoConst ScriggoV.Gen.ConstInt
